@@ -965,6 +965,33 @@ fn run_base(seed: u64, shard: usize, base: usize, t: &Tier, scratch: &Path, tall
             run_case(&case, scratch, tally, seen, (shard, base));
         }
     }
+    // a parameter NAME damaged into something YAML does not read as a string (a number, null, a
+    // boolean, a sequence), and extra keys of that kind: still a file, never a panic
+    if let Ok(text) = String::from_utf8(content_of(&src_a).unwrap_or_default()) {
+        let mut kd = Rng::derive(seed, shard as u64, base as u64, "c19.keys");
+        let names = ["a1", "a2", "b", "c1", "c2", "c3", "c4", "dof", "opw_kinematics_geometric_parameters", "opw_kinematics_joint_offsets", "opw_kinematics_joint_sign_corrections"];
+        let keys = ["11", "8", "~", "null", "true", ".1", "1e3", "0x1F", "[c2]", "{a: 1}", "2024", "!!str a1", "\"a1\"", "? a1", "-1", ".inf", ".nan"];
+        for _ in 0..(t.random_faults / 3).max(2) {
+            let name = *kd.pick(&names);
+            let key = *kd.pick(&keys);
+            let needle = format!("{name}:");
+            let damaged = if kd.chance(0.75) {
+                match text.find(&needle) {
+                    Some(at) => format!("{}{}:{}", &text[..at], key, &text[at + needle.len()..]),
+                    None => continue,
+                }
+            } else {
+                // an extra key inside the parameter section (or at top level)
+                match text.find("  a1:") {
+                    Some(at) if kd.chance(0.6) => format!("{}  {}: 1\n{}", &text[..at], key, &text[at..]),
+                    _ => format!("{}: 1\n{}", key, text),
+                }
+            };
+            let case = Case { sources: vec![Source::Raw(damaged.into_bytes())], ops: vec![Op::Write(0)], mtime_s, regen: None, regen_reads: None };
+            tally.bump("fault_parameter_name_replaced_by_a_non_string_key", 1);
+            run_case(&case, scratch, tally, seen, (shard, base));
+        }
+    }
     // arbitrary byte strings for the no-panic clause
     for r in 0..t.random_faults / 2 {
         let len = w.below(200);
